@@ -6,9 +6,10 @@
    does not run (run = None), so every `run ... = Some st` is a real execution prefix.
 
    This file contains only property theorems, each closed by `exact <lemma>` and followed by
-   Print Assumptions, and the statements that are not proved (Definition C05_full_...). *)
+   Print Assumptions. *)
 From Coq Require Import Permutation.
-From SV Require Import Base.Prelude Model.Mailbox Proof.MailboxFacts Proof.MailboxProof Proof.MailboxInOrder.
+From SV Require Import Base.Prelude Model.Mailbox Proof.MailboxFacts Proof.MailboxProof Proof.MailboxInOrder
+  Proof.MailboxTermination Model.MailboxDivider Proof.MailboxDividerProof Proof.MailboxDividerLive Proof.MailboxNumbered.
 Local Open Scope nat_scope.
 
 (* Every subscriber's delivered sequence is a prefix of the sent messages in number order with futures
@@ -88,41 +89,124 @@ Theorem C05_mailbox_maximal_schedules_deliver :
 Proof. exact maximal_deliver. Qed.
 Print Assumptions C05_mailbox_maximal_schedules_deliver.
 
-(* ---------------- stated, not proved ---------------- *)
-
-(* Termination: no infinite schedule (a measure that decreases with every step).  Together with
-   deadlock freedom: every schedule reaches a state where all threads have finished. *)
-Definition C05_full_mailbox_terminates : Prop :=
+(* Termination: the measure mu (Proof/MailboxTermination.v: weighted ranks of the sender's and the
+   subscribers' program counters, remaining source, unread messages, set woken flags, pending futures)
+   strictly decreases with every step of every thread, so every schedule is at most mu(initial state)
+   steps long: no livelock through spurious wake-ups, no infinite run.  With deadlock freedom: every
+   schedule can be extended, in at most that many steps, to a state where all threads have finished. *)
+Theorem C05_mailbox_terminates :
   forall (cfg : config) (msgs : list msg) (nfut : nat),
     (forall m, In m msgs -> is_stop m = false) ->
-    forall (drives : list bool) (killer : option bool),
-      valid cfg msgs nfut drives ->
-      exists bound, forall sched st,
-        run cfg (init cfg drives (source_of msgs) killer nfut) sched = Some st -> length sched <= bound.
-
-(* Explicit numbering: delivery safety and deadlock freedom when the source numbers its messages by a
-   permutation that fits the capacity (model: same LTS with `Some k` numbers; covered by the
-   correspondence check over all permutations of up to 4 messages, not yet by a proof). *)
-Definition fits (cap : option nat) (nums : list nat) : Prop :=
-  match cap with
-  | None => True
-  | Some c => forall p, p <= length nums ->
-      forall u, (forall k, k < u -> In k (firstn p nums)) -> ~ In u (firstn p nums) ->
-        length (filter (fun k => u <? k) (firstn p nums)) < c
-  end.
-Definition C05_full_mailbox_explicit_numbering : Prop :=
-  forall (cfg : config) (items : list (nat * msg)) (nfut : nat),
-    c_lazy cfg = false ->
-    (forall it, In it items -> is_stop (snd it) = false) ->
-    Permutation (map fst items) (seq 0 (length items)) ->
-    fits (c_cap cfg) (map fst items) ->
-    forall (drives : list bool) (sched : list tid) (st : state),
+    forall (drives : list bool) (killer : option bool) (sched : list tid) (st : state),
       drives <> [] ->
-      (forall c, c_cap cfg = Some c -> 1 <= c) ->
-      (forall k v, In (Fut k v) (map snd items) -> k < nfut) ->
-      run cfg (init cfg drives (map (fun it => (Some (fst it), snd it)) items) None nfut) sched = Some st ->
-      ((exists t, enabled st t = true) \/ all_terminal st = true) /\
-      (all_terminal st = true -> forall i r, nth_error (rds st) i = Some r -> r_pc r = RDone).
+      run cfg (init cfg drives (source_of msgs) killer nfut) sched = Some st ->
+      length sched + mu msgs st <= mu msgs (init cfg drives (source_of msgs) killer nfut).
+Proof. exact schedules_bounded. Qed.
+Print Assumptions C05_mailbox_terminates.
 
-(* divide_outputs feeding several mailboxes is not modelled in Coq: it is exercised on the implementation
-   by the controlled scheduler only (harness/props/c05.py, unit "divider"); see design_notes/C05.md. *)
+(* divide_outputs feeding several mailboxes (Model/MailboxDivider.v; every run projects, mailbox by
+   mailbox, onto a run of the single-mailbox LTS): each subscriber of each target mailbox receives a
+   prefix of that mailbox's components of the dicts, in order, and all of them once it has finished.
+   For all schedules, any number of mailboxes and subscribers, lazy or eager, any flow-freely set. *)
+Theorem C05_divider_delivery_safe :
+  forall (dc : dconfig) (subs : list (list bool)) (comps : list (list msg)) (ndicts : nat)
+         (sched : list dtid) (ds : dstate) (j : nat) (c : state) (ms : list msg),
+    drun dc (dinit dc subs comps ndicts) sched = Some ds ->
+    nth_error (d_mbs ds) j = Some c -> nth_error comps j = Some ms ->
+    (forall m, In m ms -> is_stop m = false) ->
+    forall i r, nth_error (rds c) i = Some r ->
+      is_prefix (r_log r) (vals ms) /\ (r_pc r = RDone -> r_log r = vals ms).
+Proof. exact divider_delivery_safe. Qed.
+Print Assumptions C05_divider_delivery_safe.
+
+(* ... and every target mailbox of a divider respects its capacity *)
+Theorem C05_divider_capacity :
+  forall (dc : dconfig) (subs : list (list bool)) (comps : list (list msg)) (ndicts : nat)
+         (sched : list dtid) (ds : dstate) (j : nat) (c : state) (cap : nat),
+    drun dc (dinit dc subs comps ndicts) sched = Some ds ->
+    nth_error (d_mbs ds) j = Some c -> dc_cap dc = Some cap -> length (box c) <= cap.
+Proof. exact divider_capacity. Qed.
+Print Assumptions C05_divider_capacity.
+
+(* ... and has no lost wake-up *)
+Theorem C05_divider_no_lost_wakeup :
+  forall (dc : dconfig) (subs : list (list bool)) (comps : list (list msg)) (ndicts : nat)
+         (sched : list dtid) (ds : dstate) (j : nat) (c : state),
+    drun dc (dinit dc subs comps ndicts) sched = Some ds ->
+    nth_error (d_mbs ds) j = Some c -> W (cfg_of dc j) c.
+Proof. exact divider_no_lost_wakeup. Qed.
+Print Assumptions C05_divider_no_lost_wakeup.
+
+(* Explicit numbering (send(msg, msg_number=k)), safety: for every duplicate-free numbering with numbers
+   below the message count (= every permutation), sent in any order, with any capacity, mode, subscribers,
+   kill and schedule: each subscriber's delivered sequence is a prefix of the messages ORDERED BY NUMBER
+   (expected items = vals of the messages numbered 0, 1, ..., N-1), and a subscriber that finished normally
+   has received all of them. *)
+Theorem C05_mailbox_explicit_numbering_safe :
+  forall (cfg : config) (items : list (nat * msg)) (nfut : nat),
+    NoDup (map fst items) ->
+    (forall k m, In (k, m) items -> k < length items) ->
+    (forall k m, In (k, m) items -> is_stop m = false) ->
+    forall (drives : list bool) (killer : option bool) (sched : list tid) (st : state),
+      run cfg (init cfg drives (numbered_source items) killer nfut) sched = Some st ->
+      forall i r, nth_error (rds st) i = Some r ->
+        is_prefix (r_log r) (expected items) /\ (r_pc r = RDone -> r_log r = expected items).
+Proof. exact numbered_delivery_safe. Qed.
+Print Assumptions C05_mailbox_explicit_numbering_safe.
+
+(* Explicit numbering, liveness (eager mode, no kill): when the numbering is a permutation of 0..N-1 that
+   `fits` the capacity -- before every send, fewer than `capacity` of the numbers already sent lie above
+   the lowest number not yet sent -- every reachable state has an enabled thread or all threads have
+   finished, and then every subscriber has exactly the messages in number order. *)
+Theorem C05_mailbox_explicit_numbering :
+  forall (cfg : config) (items : list (nat * msg)) (nfut : nat),
+    Permutation (map fst items) (seq 0 (length items)) ->
+    (forall k m, In (k, m) items -> is_stop m = false) ->
+    c_lazy cfg = false ->
+    (forall k v n, In (n, Fut k v) items -> k < nfut) ->
+    forall (drives : list bool) (sched : list tid) (st : state),
+      drives <> [] -> (forall c, c_cap cfg = Some c -> 1 <= c) -> fits (c_cap cfg) (map fst items) ->
+      run cfg (init cfg drives (numbered_source items) None nfut) sched = Some st ->
+      ((exists t, enabled st t = true) \/ all_terminal st = true) /\
+      (forall i r, nth_error (rds st) i = Some r ->
+         is_prefix (r_log r) (expected items) /\ (r_pc r = RDone -> r_log r = expected items)) /\
+      (all_terminal st = true -> forall i r, nth_error (rds st) i = Some r -> r_log r = expected items).
+Proof. exact numbered_safe_and_live. Qed.
+Print Assumptions C05_mailbox_explicit_numbering.
+
+(* Deadlock freedom of the divider system (Proof/MailboxDividerLive.v): every reachable state has an
+   enabled thread or everything has finished -- any number of mailboxes with at least one subscriber each,
+   capacity >= 1, lazy or eager, any flow-freely set, a driving subscriber on every gated mailbox, plain
+   messages.  (An accounting invariant ties the divider's pc and the dicts still to fetch to each
+   component's phase and remaining items; then the single-mailbox lemma is applied to the mailbox the
+   divider is working on.)  Failure paths of divide_outputs are outside the model. *)
+Theorem C05_divider_deadlock_free :
+  forall (dc : dconfig) (subs : list (list bool)) (comps : list (list msg)) (ndicts : nat),
+    0 < length subs -> length comps = length subs ->
+    (forall j dr, nth_error subs j = Some dr -> dr <> []) ->
+    (forall j ms, nth_error comps j = Some ms ->
+       length ms = ndicts /\ forall m, In m ms -> exists v, m = Plain v) ->
+    (forall c, dc_cap dc = Some c -> 1 <= c) ->
+    (forall j dr, nth_error subs j = Some dr -> gated dc j = true -> In true dr) ->
+    forall (sched : list dtid) (ds : dstate),
+      drun dc (dinit dc subs comps ndicts) sched = Some ds ->
+      (exists t, denabled ds t = true) \/ d_all_terminal ds = true.
+Proof. exact divider_deadlock_free. Qed.
+Print Assumptions C05_divider_deadlock_free.
+
+(* The property statement phrases the condition on explicit numbers as "the capacity exceeds their largest
+   displacement": that implies `fits` (after p sends exactly p - u sent numbers lie above the lowest unsent
+   number u, and u itself sits at a position q >= p with q < u + capacity). *)
+Theorem C05_displacement_implies_fits :
+  forall (c : nat) (nums : list nat),
+    1 <= c ->
+    Permutation nums (seq 0 (length nums)) ->
+    (forall p k, nth_error nums p = Some k -> k < p + c /\ p < k + c) ->
+    fits (Some c) nums.
+Proof. exact displacement_implies_fits. Qed.
+Print Assumptions C05_displacement_implies_fits.
+
+(* No statement of this property is left unproved for the model.  Outside the model (see
+   design_notes/C05.md): failure paths of divide_outputs, duplicate message numbers, subscriber
+   exceptions, explicit numbering through a gated (lazy) sender, which strax never does and which
+   deadlocks (Proof/MailboxExamples.v: ex_lazy_out_of_order_deadlocks). *)
